@@ -20,6 +20,10 @@ REPO = os.environ.get("VERIF_REPO", "/repo")
 OUT = os.path.join(VERIF, "lean", "MirVerif", "Gen", "C11_Tables.lean")
 
 
+class Unrec(Exception):
+    """a construct of the reader that the fact extraction does not recognise"""
+
+
 def die(msg):
     sys.stderr.write("c11_tables.py: " + msg + "\n")
     sys.exit(2)
@@ -108,7 +112,7 @@ def norm(s):
     return re.sub(r"\s+", " ", s).strip()
 
 
-def load():
+def load(strict=True):
     """parse the source under test; returns a dict (also used by checks/c11.py)"""
     raw = open(os.path.join(REPO, "mir.c")).read()
     h = preprocess(os.path.join(REPO, "mir.h"))
@@ -152,75 +156,99 @@ def load():
         die("MIR_BLK_NUM not found")
 
     rd = func_body(raw, r"void\s+MIR_read_with_func\s*\(MIR_context_t ctx[^{;]*\{")
-    # insn code bound
-    m = re.search(r"if\s*\(\s*insn_code\s*>=\s*(\w+)\s*\)\s*MIR_get_error_func\s*\(ctx\)\s*\(MIR_binary_io_error,\s*\"wrong insn code", rd)
-    if not m:
-        die("reader: `if (insn_code >= X) ... wrong insn code` not recognised")
-    if m.group(1) not in env:
-        die("reader: unknown bound %s" % m.group(1))
-    code_limit_name, code_limit = m.group(1), env[m.group(1)]
-    # unportable list (reader and writer must agree)
-    m = re.search(r"if\s*\(((?:\s*insn_code\s*==\s*\w+\s*\|\|)*\s*insn_code\s*==\s*\w+\s*)\)\s*MIR_get_error_func\s*\(ctx\)\s*\(MIR_binary_io_error,\s*\"UNSPEC, USE, or PHI", rd)
-    if not m:
-        die("reader: unportable insn test not recognised")
-    unport_r = sorted(env[x] for x in re.findall(r"==\s*(\w+)", m.group(1)))
-    wi = func_body(raw, r"static\s+size_t\s+write_insn\s*\([^)]*\)\s*\{")
-    m = re.search(r"if\s*\(((?:\s*code\s*==\s*\w+\s*\|\|)*\s*code\s*==\s*\w+\s*)\)\s*MIR_get_error_func\s*\(ctx\)\s*\(MIR_binary_io_error", wi)
-    if not m:
-        die("writer: unportable insn test not recognised")
-    unport_w = sorted(env[x] for x in re.findall(r"==\s*(\w+)", m.group(1)))
-    if unport_r != unport_w:
-        die("reader and writer disagree on the unportable insns: %s vs %s" % (unport_r, unport_w))
-    # #30 hard register name of a global
-    m = re.search(r"const\s+char\s*\*\s*reg_name\s*=\s*to_str\s*\(\s*ctx\s*,\s*(.*?)\)\s*\.s\s*;", rd, re.S)
-    if not m:
-        die("reader: `reg_name = to_str (ctx, ...).s` not recognised")
-    e = norm(m.group(1))
-    if e == "get_uint (ctx, tag - TAG_NAME1 + 1)":
-        double_read = True
-    elif e == "attr.u":
-        double_read = False
-    else:
-        die("reader: unknown expression for the hard register string number: %r" % e)
-    # #6 lref labels
-    m = re.search(r"i\s*=\s*read_int\s*\(ctx,\s*\"wrong lref label num\"\)\s*;\s*lab\s*=\s*(\w+)\s*\(ctx,\s*i\)\s*;\s*"
-                  r"i\s*=\s*read_int\s*\(ctx,\s*\"wrong 2nd lref label num\"\)\s*;\s*lab2\s*=\s*i\s*(<=?)\s*0\s*\?\s*NULL\s*:\s*(\w+)\s*\(ctx,\s*i\)\s*;", rd)
-    if not m:
-        die("reader: lref label creation not recognised")
-    if m.group(1) != m.group(3) or m.group(1) not in ("create_label", "to_lab"):
-        die("reader: lref labels made by %s/%s" % (m.group(1), m.group(3)))
-    lref_zero_none = m.group(2) == "<="
-    lref_orphan = m.group(1) == "create_label"
-    # where is func_labels reset?  (per function today)
-    resets = re.findall(r"VARR_TRUNC\s*\(MIR_label_t,\s*func_labels,\s*0\)", rd)
-    if len(resets) != 1:
-        die("reader: expected exactly one reset of func_labels, found %d" % len(resets))
-    # #34 data of type p: is there a MIR_T_P case in the unsigned-token switch?
-    m = re.search(r"case\s+TAG_U8\s*:\s*switch\s*\(type\)\s*\{(.*?)default\s*:", rd, re.S)
-    if not m:
-        die("reader: unsigned data switch not recognised")
-    ucases = re.findall(r"case\s+(MIR_T_\w+)\s*:", m.group(1))
-    base = ["MIR_T_U8", "MIR_T_U16", "MIR_T_U32", "MIR_T_U64"]
-    if sorted(ucases) == sorted(base):
-        data_ptr = False
-    elif sorted(ucases) == sorted(base + ["MIR_T_P"]):
-        data_ptr = True
-    else:
-        die("reader: unexpected cases in the unsigned data switch: %s" % ucases)
+    unrecognised = []
 
-    # labels after the last insn of a function: error at endfunc (today) or appended
-    m = re.search(r'strcmp\s*\(name,\s*"endfunc"\)\s*==\s*0\)\s*\{(.*?)MIR_finish_func\s*\(ctx\)', rd, re.S)
-    if not m:
-        die("reader: endfunc branch not recognised")
-    eb = norm(m.group(1))
-    if "endfunc should have no labels" in eb and "MIR_append_insn" not in eb:
-        endfunc_labels = False
-    elif ("endfunc should have no labels" not in eb
-          and re.search(r"for \(size_t j = 0; j < VARR_LENGTH \(uint64_t, insn_label_string_nums\); j\+\+\) "
-                        r"MIR_append_insn \(ctx, func, to_lab \(ctx, VARR_GET \(uint64_t, insn_label_string_nums, j\)\)\);", eb)):
-        endfunc_labels = True
-    else:
-        die("reader: unknown treatment of labels before endfunc: %r" % eb[:300])
+    def fact(name, fn, default):
+        """one reader fact; in strict mode (the translator proper) an unrecognised construct is fatal, in
+        lenient mode (search stage of the check) the canonical value is used and the name recorded"""
+        try:
+            return fn()
+        except Unrec as e:
+            if strict:
+                die(str(e))
+            unrecognised.append({"fact": name, "why": str(e), "assumed": default})
+            return default
+
+    def f_limit():
+        m = re.search(r"if\s*\(\s*insn_code\s*>=\s*(\w+)\s*\)\s*MIR_get_error_func\s*\(ctx\)\s*\(MIR_binary_io_error,\s*\"wrong insn code", rd)
+        if not m:
+            raise Unrec("reader: `if (insn_code >= X) ... wrong insn code` not recognised")
+        if m.group(1) not in env:
+            raise Unrec("reader: unknown bound %s" % m.group(1))
+        return m.group(1), env[m.group(1)]
+    code_limit_name, code_limit = fact("codeLimit", f_limit, ("MIR_INVALID_INSN", env.get("MIR_INVALID_INSN", len(rows))))
+
+    def f_unport():
+        m = re.search(r"if\s*\(((?:\s*insn_code\s*==\s*\w+\s*\|\|)*\s*insn_code\s*==\s*\w+\s*)\)\s*MIR_get_error_func\s*\(ctx\)\s*\(MIR_binary_io_error,\s*\"UNSPEC, USE, or PHI", rd)
+        if not m:
+            raise Unrec("reader: unportable insn test not recognised")
+        unport_r = sorted(env[x] for x in re.findall(r"==\s*(\w+)", m.group(1)))
+        wi = func_body(raw, r"static\s+size_t\s+write_insn\s*\([^)]*\)\s*\{")
+        m = re.search(r"if\s*\(((?:\s*code\s*==\s*\w+\s*\|\|)*\s*code\s*==\s*\w+\s*)\)\s*MIR_get_error_func\s*\(ctx\)\s*\(MIR_binary_io_error", wi)
+        if not m:
+            raise Unrec("writer: unportable insn test not recognised")
+        unport_w = sorted(env[x] for x in re.findall(r"==\s*(\w+)", m.group(1)))
+        if unport_r != unport_w:
+            raise Unrec("reader and writer disagree on the unportable insns: %s vs %s" % (unport_r, unport_w))
+        return unport_r
+    unport_r = fact("unportable", f_unport, sorted(env[n] for n in ("MIR_UNSPEC", "MIR_USE", "MIR_PHI") if n in env))
+
+    def f_double():
+        m = re.search(r"const\s+char\s*\*\s*reg_name\s*=\s*to_str\s*\(\s*ctx\s*,\s*(.*?)\)\s*\.s\s*;", rd, re.S)
+        if not m:
+            raise Unrec("reader: `reg_name = to_str (ctx, ...).s` not recognised")
+        e = norm(m.group(1))
+        if e == "get_uint (ctx, tag - TAG_NAME1 + 1)":
+            return True
+        if e == "attr.u":
+            return False
+        raise Unrec("reader: unknown expression for the hard register string number: %r" % e)
+    double_read = fact("globalDoubleRead", f_double, False)
+
+    def f_lref():
+        m = re.search(r"i\s*=\s*read_int\s*\(ctx,\s*\"wrong lref label num\"\)\s*;\s*lab\s*=\s*(\w+)\s*\(ctx,\s*i\)\s*;\s*"
+                      r"i\s*=\s*read_int\s*\(ctx,\s*\"wrong 2nd lref label num\"\)\s*;\s*lab2\s*=\s*i\s*(<=?)\s*0\s*\?\s*NULL\s*:\s*(\w+)\s*\(ctx,\s*i\)\s*;", rd)
+        if not m:
+            raise Unrec("reader: lref label creation not recognised")
+        if m.group(1) != m.group(3) or m.group(1) not in ("create_label", "to_lab"):
+            raise Unrec("reader: lref labels made by %s/%s" % (m.group(1), m.group(3)))
+        return m.group(1) == "create_label", m.group(2) == "<="
+    lref_orphan, lref_zero_none = fact("lref", f_lref, (False, False))
+
+    def f_reset():
+        # the label table must be emptied exactly once, at `module` or at `func`
+        resets = re.findall(r"VARR_TRUNC\s*\(MIR_label_t,\s*func_labels,\s*0\)", rd)
+        if len(resets) != 1:
+            raise Unrec("reader: expected exactly one reset of func_labels, found %d" % len(resets))
+        return True
+    fact("labelTableReset", f_reset, True)
+
+    def f_datap():
+        m = re.search(r"case\s+TAG_U8\s*:\s*switch\s*\(type\)\s*\{(.*?)default\s*:", rd, re.S)
+        if not m:
+            raise Unrec("reader: unsigned data switch not recognised")
+        ucases = re.findall(r"case\s+(MIR_T_\w+)\s*:", m.group(1))
+        base = ["MIR_T_U8", "MIR_T_U16", "MIR_T_U32", "MIR_T_U64"]
+        if sorted(ucases) == sorted(base):
+            return False
+        if sorted(ucases) == sorted(base + ["MIR_T_P"]):
+            return True
+        raise Unrec("reader: unexpected cases in the unsigned data switch: %s" % ucases)
+    data_ptr = fact("dataPtr", f_datap, True)
+
+    def f_endfunc():
+        m = re.search(r'strcmp\s*\(name,\s*"endfunc"\)\s*==\s*0\)\s*\{(.*?)MIR_finish_func\s*\(ctx\)', rd, re.S)
+        if not m:
+            raise Unrec("reader: endfunc branch not recognised")
+        eb = norm(m.group(1))
+        if "endfunc should have no labels" in eb and "MIR_append_insn" not in eb:
+            return False
+        if ("endfunc should have no labels" not in eb
+                and re.search(r"for \(size_t j = 0; j < VARR_LENGTH \(uint64_t, insn_label_string_nums\); j\+\+\) "
+                              r"MIR_append_insn \(ctx, func, to_lab \(ctx, VARR_GET \(uint64_t, insn_label_string_nums, j\)\)\);", eb)):
+            return True
+        raise Unrec("reader: unknown treatment of labels before endfunc: %r" % eb[:300])
+    endfunc_labels = fact("endfuncLabels", f_endfunc, True)
 
     m = re.search(r"#define\s+OUT_FLAG\s+(.*)", raw)
     if not m:
@@ -229,7 +257,8 @@ def load():
             "out_flag": ev(m.group(1), env), "version": version, "blk_num": blk_num,
             "code_limit": code_limit, "code_limit_name": code_limit_name, "insn_bound": insn_bound,
             "cfg": {"unportable": unport_r, "globalDoubleRead": double_read, "lrefOrphan": lref_orphan,
-                    "dataPtr": data_ptr, "codeLimit": code_limit, "endfuncLabels": endfunc_labels, "lrefZeroIsNone": lref_zero_none}}
+                    "dataPtr": data_ptr, "codeLimit": code_limit, "endfuncLabels": endfunc_labels, "lrefZeroIsNone": lref_zero_none},
+            "unrecognised": unrecognised}
 
 
 def main():
